@@ -10,7 +10,9 @@
 (***************************************************************************)
 EXTENDS Instance, Json
 
-CONSTANTS ClsSet, StepSet, GSet, SndSet, PriorSet, Multi, SoSet, Rounds, LateSet
+CONSTANTS ClsSet, StepSet, GSet, SndSet, PriorSet, Multi, SoSet, Rounds, LateSet, SndPorts, LateSecond
+\* SndPorts: port numbers of the announcing master ports (two ports of one foreign clock are two masters with one clock identity);
+\* LateSecond: with two candidates on a port, the second one appears only after the first BMCA round (Rounds = 2)
 VARIABLES case, st, res, hist, done
 vars == <<case, st, res, hist, done>>
 
@@ -42,10 +44,10 @@ Tp(k) == [utc |-> IF k % 2 = 0 THEN 37 ELSE NoUtc, leap |-> IF k % 3 = 0 THEN 61
           tt |-> k % 2 = 1, ft |-> k % 4 < 2, ptp |-> TRUE, src |-> 16 * (1 + (k % 6))]
 
 \* a candidate: sender clock identity, grandmaster record, stepsRemoved
-Cands == {[snd |-> s, g |-> k, steps |-> n] : s \in SndSet, k \in GSet, n \in StepSet}
-NoCand == [snd |-> 0, g |-> 0, steps |-> 0]
+Cands == {[snd |-> s, sp |-> q, g |-> k, steps |-> n] : s \in SndSet, q \in SndPorts, k \in GSet, n \in StepSet}
+NoCand == [snd |-> 0, sp |-> 0, g |-> 0, steps |-> 0]
 PerPort == IF Multi
-           THEN {<<>>} \cup {<<c>> : c \in Cands} \cup {<<cd[1], cd[2]>> : cd \in {x \in Cands \X Cands : x[1].snd # x[2].snd}}
+           THEN {<<>>} \cup {<<c>> : c \in Cands} \cup {<<cd[1], cd[2]>> : cd \in {x \in Cands \X Cands : <<x[1].snd, x[1].sp>> # <<x[2].snd, x[2].sp>>}}
            ELSE {<<>>} \cup {<<c>> : c \in Cands}
 Orders == IF NP = 1 THEN {<<1>>}
           ELSE IF NP = 2 THEN {<<1, 2>>, <<2, 1>>}
@@ -57,7 +59,7 @@ Late_None == {{}}
 Late_All == SUBSET Ports
 Cases == [cls : ClsSet, so : SoSet, prior : [Ports -> PriorSet], cand : [Ports -> PerPort], ord : Orders, late : LateSet]
 
-Ann(p, c, seq) == [e |-> "ann", p |-> p, src |-> <<c.snd, 1>>, seq |-> seq, g |-> G(c.g), steps |-> c.steps, tp |-> Tp(c.g + c.steps)]
+Ann(p, c, seq) == [e |-> "ann", p |-> p, src |-> <<c.snd, c.sp>>, seq |-> seq, g |-> G(c.g), steps |-> c.steps, tp |-> Tp(c.g + c.steps)]
 RECURSIVE AnnPort(_, _, _, _)
 AnnPort(p, cs, i, seq) == IF i > Len(cs) THEN <<>> ELSE <<Ann(p, cs[i], seq)>> \o AnnPort(p, cs, i + 1, seq)
 RECURSIVE AnnPort2(_, _, _)
@@ -71,8 +73,8 @@ Script(c) ==
              \o (IF c.so THEN <<[e |-> "so", v |-> TRUE]>> ELSE <<>>)
       pri == [p \in Ports |-> IF c.prior[p] = "M" THEN <<[e |-> "t", k |-> "rcpt", p |-> p]>> ELSE <<>>]
       \* first all first Announces in port order, then the second ones in reverse candidate order
-      early == [p \in Ports |-> IF p \in c.late THEN <<>> ELSE c.cand[p]]
-      lat == [p \in Ports |-> IF p \in c.late THEN c.cand[p] ELSE <<>>]
+      early == [p \in Ports |-> IF p \in c.late THEN <<>> ELSE IF LateSecond /\ Len(c.cand[p]) = 2 THEN <<c.cand[p][1]>> ELSE c.cand[p]]
+      lat == [p \in Ports |-> IF p \in c.late THEN c.cand[p] ELSE IF LateSecond /\ Len(c.cand[p]) = 2 THEN <<c.cand[p][2]>> ELSE <<>>]
       a1 == [p \in Ports |-> AnnPort(p, early[p], 1, 7)]
       a2 == [p \in Ports |-> AnnPort2(p, early[p], 1)]
       a3 == [p \in Ports |-> AnnPort(p, early[p], 1, 9)]
@@ -111,7 +113,7 @@ AllCands == UNION {{[c |-> case.cand[p][i], p |-> p] : i \in 1..Len(case.cand[p]
 DsC(x) == [gm |-> G(x.c.g), steps |-> x.c.steps, snd |-> x.c.snd, rcv |-> <<Own, x.p>>]
 ParentIsBest ==
   (done /\ \E p \in Ports : st.pst[p] = "S") =>
-     \E b \in AllCands : /\ st.ppi = <<b.c.snd, 1>> /\ st.pst[b.p] = "S"
+     \E b \in AllCands : /\ st.ppi = <<b.c.snd, b.c.sp>> /\ st.pst[b.p] = "S"
                          /\ \A o \in AllCands : Rank(Compare(DsC(b), DsC(o))) \in {0, 1}
 \* the outcome does not depend on the order in which the host presents the ports
 OrderIndependent ==
